@@ -28,7 +28,7 @@ MODULE = "Sqfs.Props.C11"
 REQUIRED = ["Sqfs.C11.insertSorted_perm", "Sqfs.C11.insertSorted_sorted", "Sqfs.C11.compare_names_total_order",
             "Sqfs.C11.read_names_sorted", "Sqfs.C11.read_names_perm", "Sqfs.C11.qsort_any_conforming",
             "Sqfs.C11.scan_perm_invariant", "Sqfs.C11.scan_perm_invariant_glob", "Sqfs.C11.pack_order_invariant", "Sqfs.C11.sort_files_perm_sorted_stable",
-            "Sqfs.C11.numbering_deterministic", "Sqfs.C11.scan_tree_sorted", "Sqfs.C11.glob_tree_sorted"]
+            "Sqfs.C11.numbering_deterministic", "Sqfs.C11.pack_dir_links_order_free", "Sqfs.C11.scan_tree_sorted", "Sqfs.C11.glob_tree_sorted"]
 # not obligations of the property: the witness for the iterator without its qsort call (a revert of /repo 7ff9210), and the
 # frozen record of the theorems about the code before that commit; both must keep building with allowed axioms only
 RECORD_MODULES = ["Sqfs.Witness.C11", "Sqfs.Proofs.C11Pinned.Theorems"]
@@ -1401,12 +1401,18 @@ def direct_part(ctx, harness, counters, hist):
         return "direct %s %d %d %d %d %d %s" % (what, d[0], d[1], d[2], d[3], len(ents), " ".join(" ".join(e) for e in ents))
 
     lines, groups = [], []          # groups: (first line index, number of lines, all-flat?) for the link sets
-    for depth in (4095, 4096, 4097, 4098):
-        p = b"/".join([b"a"] * depth)
-        lines += [op("count", [ent("A", p, 0o40755)]), op("count", [ent("A", p, 0o100644, extra=b"in")]),
-                  op("count", [ent("A", b"/".join([b"a"] * (depth - 1)), 0o40755), ent("A", p, 0o40700)]),
-                  op("count", [ent("A", b"x", 0o100644), ent("L", p, 0o120777, extra=b"x")])]
-        dp["nesting"] += 4
+    limit = 4096                                     # SQFS_MAX_DIR_NESTING; the model takes it from the header
+    deep = lambda k: b"/".join([b"a"] * k)
+    lines += [op("count", [ent("A", deep(limit), 0o40755)]), op("count", [ent("A", deep(limit + 1), 0o40755)]),
+              op("count", [ent("A", deep(limit + 2), 0o100644, extra=b"in")])]
+    dp["nesting"] += 3
+    if not ctx.quick():
+        for depth in (limit - 1, limit, limit + 1, limit + 2):
+            p = deep(depth)
+            lines += [op("count", [ent("A", p, 0o100644, extra=b"in")]),
+                      op("count", [ent("A", deep(depth - 1), 0o40755), ent("A", p, 0o40700)]),
+                      op("count", [ent("A", b"x", 0o100644), ent("L", p, 0o120777, extra=b"x")])]
+            dp["nesting"] += 3
     for v in (2 ** 32 - 1, 2 ** 32, 2 ** 40 + 5):
         lines += [op("full", [ent("A", b"u", 0o100644, uid=v)]), op("full", [ent("A", b"g", 0o40755, gid=v)]),
                   op("full", [ent("A", b"c", 0o20644, rdev=v)]), op("full", [ent("A", b"b", 0o60644, rdev=v)]),
@@ -1488,6 +1494,96 @@ def direct_part(ctx, harness, counters, hist):
     hist["direct"] = dp
     if dp["ops"] < 100 or dp["flat_sets"] < 5 or dp["err"] == 0 or dp["err"] == dp["ops"]:
         raise vlib.CheckFailure("direct part starved: %s" % dp)
+
+
+def deep_part(ctx, harness, counters, hist):
+    """the nesting limit of the recursive iterator (dir_rec.c: SQFS_MAX_DIR_NESTING): a chain of directories deeper than any
+    path name can express, built and inspected through directory file descriptors, scanned with directories filtered out
+    (so that fstree.c's own limit does not get to see them)"""
+    limit = None
+    for l in open(str(vlib.LEAN / "Sqfs" / "Generated" / "Consts.lean")):
+        if l.startswith("def maxDirNesting"):
+            limit = int(l.split(":=")[1])
+    if limit is None:
+        raise vlib.CheckFailure("maxDirNesting missing from the generated constants")
+    dp = {"limit": limit, "cases": 0, "err": 0, "ok": 0}
+    lines, mlines = [], []
+    roots = []
+    for ci, depth in enumerate((limit, limit + 1) if ctx.quick() else (limit - 1, limit, limit + 1)):
+        root = str(ctx.scratch / ("deep%d" % ci))
+        os.mkdir(root)
+        roots.append(root)
+        fd = os.open(root, os.O_RDONLY | os.O_DIRECTORY)
+        rootdev = os.fstat(fd).st_dev
+        levels = []                                        # per level: (dir key, stat of d or None, stat of f)
+        for k in range(depth + 1):
+            f = os.open("f", os.O_WRONLY | os.O_CREAT | os.O_EXCL, 0o644, dir_fd=fd)
+            os.close(f)
+            sf = os.stat("f", dir_fd=fd, follow_symlinks=False)
+            sd = None
+            if k < depth:
+                os.mkdir("d", 0o755, dir_fd=fd)
+                sd = os.stat("d", dir_fd=fd, follow_symlinks=False)
+            st = os.fstat(fd)
+            levels.append(((st.st_dev, st.st_ino), sd, sf))
+            if k < depth:
+                nfd = os.open("d", os.O_RDONLY | os.O_DIRECTORY, dir_fd=fd)
+                os.close(fd)
+                fd = nfd
+        os.close(fd)
+        flags = DEFAULT_FLAGS | F_NO_DIR | F_NO_HL
+        for order in (["reverse"] if ctx.quick() else ["sorted", "reverse"]):
+            lines.append(("packdir %s %s 0 0 0 %d %d 0 0 0" % (order, tok(root.encode()), 0o755, flags), levels, rootdev, flags))
+    out, crash = run_harness(ctx, harness, [l[0] for l in lines], "deep")
+    for root in roots:
+        vlib.sh(["rm", "-rf", root])
+    if crash:
+        ctx.violation("crash:deep", "real scan path aborted on a directory chain around the nesting limit: rc=%s %s" % (crash["rc"], crash["stderr"][-300:]),
+                      dict(crash, level="deep"))
+        return
+    for (line, levels, rootdev, flags), o in szip(lines, out):
+        dump, _, log = o.partition(" @@ ")
+        lo = parse_log(log)
+
+        def ent(nm, st):
+            if st is None:
+                return [tok(nm), str(0o40755), "0", "0", "0", str(rootdev), "1", "0", "-"]
+            return [tok(nm), str(st.st_mode), str(st.st_uid), str(st.st_gid), str(int(st.st_mtime)), str(st.st_dev), str(st.st_ino), "0", "-"]
+
+        head, tail = [], []                      # the forest is one chain: tokens before / after the nested directory
+        for key, sd, sf in levels:
+            names = lo.get(key)
+            if names is None:
+                names = [b".", b"..", b"d", b"f"] if sd is not None else [b".", b"..", b"f"]
+            head.append(str(len(names)))
+            after = []
+            cur = head
+            for nm in names:
+                if nm == b"d":
+                    head += ent(nm, sd)
+                    cur = after
+                else:
+                    cur += ent(nm, sf if nm == b"f" else None) + ["0"]
+            tail.append(after)
+        toks = head + [x for a in reversed(tail) for x in a]
+        mlines.append("run 1 0 0 0 %d 1 G - %d 0 0 0 0 - - %d %s" % (0o755, flags, rootdev, " ".join(toks)))
+        if levels[0][0] not in lo:
+            raise vlib.CheckFailure("readdir shim not in effect in the deep-chain case")
+    m = model(ctx, mlines)
+    for (line, levels, _, _), o, mo in szip(lines, out, m):
+        dump = o.partition(" @@ ")[0]
+        dp["cases"] += 1
+        dp["err" if dump == "err" else "ok"] += 1
+        counters["evaluations"] += 1
+        if dump != mo:
+            counters["mismatch"] += 1
+            ctx.violation("corr:deep:%d" % (len(levels) - 1), "a chain of %d nested directories (limit %d), directories filtered out: real scan %s, model %s"
+                          % (len(levels) - 1, limit, dump[:80], mo[:80]),
+                          {"level": "deep", "depth": len(levels) - 1, "harness_line": line, "real": dump[:2000], "model": mo[:2000]}, found_input=False)
+    hist["deep"] = dp
+    if dp["err"] == 0 or dp["ok"] == 0:
+        if not ctx.violations:
+            raise vlib.CheckFailure("deep-chain part does not straddle the nesting limit: %s" % dp)
 
 
 SORT_FLAGS = {"dont_fragment": 4, "dont_compress": 1, "dont_deduplicate": 8, "nosparse": 16}
@@ -1589,6 +1685,9 @@ def run(ctx):
     t0 = time.time()
     direct_part(ctx, harness, counters, hist)
     hist["direct"]["seconds"] = round(time.time() - t0, 1)
+    t0 = time.time()
+    deep_part(ctx, harness, counters, hist)
+    hist["deep"]["seconds"] = round(time.time() - t0, 1)
 
     # 0a. corpus of minimised past disagreements (each: tree spec + case + orders), harness level and tool level
     cdir = vlib.CORPUS / "C11"
